@@ -3,7 +3,7 @@
    read_frame s = Ok (result, total): one call of Reader.Read on the stream s, total = bytes consumed. *)
 From Coq Require Import List NArith ZArith Bool.
 Import ListNotations.
-From V Require Import Base.Prelude Base.Radix Model.C38 Proofs.C38.
+From V Require Import Base.Prelude Base.Radix Base.Fmt Model.C38 Proofs.C38 Gen.C38 Proofs.C38Gen.
 Open Scope N_scope.
 
 (* Read is total on every byte stream: it returns (never Panic, never out of fuel) and reports
@@ -81,6 +81,22 @@ Proof. exact read_prefix_determined. Qed.
 Theorem C38_read_progress : forall s r n, read_frame s = Ok (r, n) -> n = 0 -> r = RErr EEOF /\ s = [].
 Proof. exact read_progress. Qed.
 
+(* K-gen: the literals of x/jsonrpc2/frame.go as it is now (Gen/C38.v is regenerated on every run):
+   header name, line delimiter, name separator, ParseInt base and bit size, the two tests of `length`;
+   and write_frame is the rendering of the writer's own format string *)
+Theorem C38_source_reader :
+  reader_header_names = [[content_length]]
+  /\ reader_line_delim = LF /\ reader_name_sep = COLON
+  /\ reader_parseint_base = 10%Z /\ reader_parseint_bits = 32%Z
+  /\ reader_length_tests = [src [60;61;48]; src [61;61;48]]
+  /\ reader_trimspace_calls = 2%Z.
+Proof. exact reader_tables. Qed.
+Theorem C38_source_writer_format : forall p,
+  match fmt_apply writer_format [FDec (nlen p)] with Some h => h ++ p = write_frame p | None => False end.
+Proof. exact write_frame_is_source_format. Qed.
+Theorem C38_source_writer_args : writer_format_args = [src [108;101;110;40;100;97;116;97;41]].
+Proof. exact writer_args. Qed.
+
 (* non-vacuity *)
 Definition ex_p1 : str := [123;125].                         (* {} *)
 Definition ex_p2 : str := [91;49;44;50;93].                  (* [1,2] *)
@@ -113,3 +129,6 @@ Print Assumptions C38_read_error_consumption_bounded.
 Print Assumptions C38_read_never_past_declared.
 Print Assumptions C38_read_prefix_determined.
 Print Assumptions C38_read_progress.
+Print Assumptions C38_source_reader.
+Print Assumptions C38_source_writer_format.
+Print Assumptions C38_source_writer_args.
